@@ -8,6 +8,7 @@
 //!
 //! Observation per query (one line, same text printed by ocaml/run_lookup.ml):
 //!   B <canonical>:<type>|<serialized>:<type>   X <canonical>:<type>|<serialized>:<type>
+//!   D <owner class>:V<variant type>            (ReflectionDatabase::find_default_property; model: DbOwner.find_default_owner)
 //! with `-` for an absent result / absent serialized descriptor and `PANIC` for a panic.
 //! Oracle lines (`<case> C16 <message>`): a lookup panicked, or the two copies disagree in a way
 //! other than the DoesNotSerialize difference (binary: canonical without serialized; xml: nothing).
@@ -53,6 +54,50 @@ pub fn observe(class: &str, prop: &str) -> (String, String) {
     }))
     .unwrap_or_else(|_| "PANIC".to_string());
     (b, x)
+}
+
+/// `ReflectionDatabase::find_default_property` observed as `<owner class>:V<variant type>` (`-` none, `noclass`, `PANIC`),
+/// and the same computed by an independent nearest-ancestor walk (the oracle's expectation)
+pub fn observe_default(class: &str, prop: &str) -> (String, String) {
+    let db = rbx_reflection_database::get();
+    let Some(cd) = db.classes.get(class) else { return ("noclass".to_string(), "noclass".to_string()) };
+    let owner_of = |v: &rbx_types::Variant| -> String {
+        let mut cur = Some(cd);
+        let mut steps = 0usize;
+        while let Some(c) = cur {
+            if let Some(w) = c.default_properties.get(prop) {
+                if std::ptr::eq(w, v) {
+                    return c.name.to_string();
+                }
+            }
+            cur = c.superclass.as_ref().and_then(|s| db.classes.get(s.as_ref()));
+            steps += 1;
+            if steps > db.classes.len() {
+                break;
+            }
+        }
+        "?".to_string()
+    };
+    let got = catch_unwind(AssertUnwindSafe(|| match db.find_default_property(cd, prop) {
+        None => "-".to_string(),
+        Some(v) => format!("{}:V{}", owner_of(v), super::vt_num(v.ty())),
+    }))
+    .unwrap_or_else(|_| "PANIC".to_string());
+    let mut want = "-".to_string();
+    let mut cur = Some(cd);
+    let mut steps = 0usize;
+    while let Some(c) = cur {
+        if let Some(w) = c.default_properties.get(prop) {
+            want = format!("{}:V{}", c.name, super::vt_num(w.ty()));
+            break;
+        }
+        cur = c.superclass.as_ref().and_then(|s| db.classes.get(s.as_ref()));
+        steps += 1;
+        if steps > db.classes.len() {
+            break;
+        }
+    }
+    (got, want)
 }
 
 fn chain_names(class: &str) -> BTreeSet<String> {
@@ -122,8 +167,12 @@ pub fn cli(args: &[String]) -> bool {
                     }
                     let Some(p) = l.strip_prefix("p ") else { continue };
                     let (b, x) = observe(&class, p);
+                    let (dgot, dwant) = observe_default(&class, p);
                     nq += 1;
-                    writeln!(obs, "B {b} X {x}").unwrap();
+                    writeln!(obs, "B {b} X {x} D {dgot}").unwrap();
+                    if dgot != dwant {
+                        writeln!(orc, "{id} C16 find_default_property({class}, {p}) gives `{dgot}`; the nearest class of the superclass chain that has a default for it gives `{dwant}`").unwrap();
+                    }
                     if b == "PANIC" || x == "PANIC" {
                         writeln!(orc, "{id} C16 descriptor lookup of {class}.{p} panics (binary: {b}; xml: {x})").unwrap();
                         continue;
